@@ -69,6 +69,10 @@ type (
 		init1, init2       sync.Once
 		init1err, init2err error
 
+		// The engines and mappers are created on first use, which is inside
+		// request handlers and therefore possibly concurrent.
+		mapperOnce, readOnlyMapperOnce, ceOnce, eeOnce sync.Once
+
 		healthH        *healthx.Handler
 		healthServer   *health.Server
 		handlers       []Handler
@@ -102,16 +106,16 @@ type (
 )
 
 func (r *RegistryDefault) Mapper() *relationtuple.Mapper {
-	if r.mapper == nil {
+	r.mapperOnce.Do(func() {
 		r.mapper = &relationtuple.Mapper{D: r}
-	}
+	})
 	return r.mapper
 }
 
 func (r *RegistryDefault) ReadOnlyMapper() *relationtuple.Mapper {
-	if r.readOnlyMapper == nil {
+	r.readOnlyMapperOnce.Do(func() {
 		r.readOnlyMapper = &relationtuple.Mapper{D: r, ReadOnly: true}
-	}
+	})
 	return r.readOnlyMapper
 }
 
@@ -253,16 +257,16 @@ func (r *RegistryDefault) Traverser() relationtuple.Traverser {
 }
 
 func (r *RegistryDefault) PermissionEngine() *check.Engine {
-	if r.ce == nil {
+	r.ceOnce.Do(func() {
 		r.ce = check.NewEngine(r)
-	}
+	})
 	return r.ce
 }
 
 func (r *RegistryDefault) ExpandEngine() *expand.Engine {
-	if r.ee == nil {
+	r.eeOnce.Do(func() {
 		r.ee = expand.NewEngine(r)
-	}
+	})
 	return r.ee
 }
 
